@@ -40,6 +40,21 @@ CHECKS = {
             dict(harness="C01_Sources"),
         ],
     },
+    "C10": {
+        "quick": [
+            dict(harness="C10_F2", cover=["fault", "fault-not-reached"], bounds="all 2-rune inputs over D x every fault position k in [0,2] (k symbolic)"),
+            dict(harness="C10_F3", cover=["fault", "fault-not-reached"], bounds="all 3-rune ASCII inputs x every fault position k in [0,3] (k symbolic)"),
+            dict(harness="C10_T0", cover=["fault"], bounds="43 concrete templates x every fault position (k symbolic)"),
+            dict(harness="C10_Reader", cover=["fault"], bounds="43 concrete templates delivered by an io.Reader (raw and through bufio.Reader) failing after every byte count"),
+        ],
+        "thorough": [
+            dict(harness="C10_F2", cover=["fault", "fault-not-reached"]),
+            dict(harness="C10_F3", cover=["fault", "fault-not-reached"]),
+            dict(harness="C10_T0", cover=["fault"]),
+            dict(harness="C10_T1", cover=["fault"], bounds="43 templates x one symbolic hole x every fault position"),
+            dict(harness="C10_Reader", cover=["fault"]),
+        ],
+    },
     "C11": {
         "quick": [
             dict(harness="C11_D1", cover=["value", "fault", "lazy", "badlit-skipped"], bounds="every operator variant (4 unary, 16 binary, && || ?:, 11 assignments x 3 lvalue forms, ++/-- prefix/postfix) over operands {a b x symbolic int64; u unset; e empty; o=010; h=0x1F; g=1z; literals 0 1 7 010 0x1F MaxInt64 08 0x}"),
@@ -170,6 +185,8 @@ META = {
     "C01": dict(text="Totality of ParseCommands within bounds: every feasible path of the real lexer/parser SSA over N free runes (N<=3 quick, 4 thorough), "
                      "over every template with symbolic holes, with symbolic alias tables, under panicnil 0 and 1, ends without caller panic, background-goroutine death, deadlock or budget overrun. " + BOUNDED,
                 note="inputs longer than the bounds, code points outside D and the std decoders behind string/[]byte/io.Reader sources (smoke-tested concretely) are outside the claim; goroutines run under the deterministic baton schedule plus a drain phase after return"),
+    "C10": dict(text="The fault position is a solver variable: for every position at which the RuneScanner (or io.Reader) starts failing during the call, ParseCommands returns a non-nil error that is the injected error, on every feasible path within the bounds. " + BOUNDED,
+                note="single persistent fault (once failing, always failing); faults that only a goroutine left behind after the return would hit are not counted (that is C06); deterministic baton schedule"),
     "C11": dict(text="Eval agrees with a C reference evaluator (precedence, associativity, laziness, effects on a map store, faults) for every 64-bit value of the symbolic operands on all shapes within the bounds; value obligations are discharged as identical terms or by z3. " + BOUNDED,
                 note="reference evaluator applies Go's own * / % << >> (the ALU is the spec); C-undefined cases (MinInt64/-1, shift count >= 64, unsequenced modify+access) are excluded by assumption; strconv.Itoa/ParseInt of a symbolic integer are modelled as an exact decimal round trip; known finding KF-C11-eager-operands"),
     "C12": dict(text="Match agrees with a direct backtracking matcher for shell pattern notation in all four removal modes for every byte value of the symbolic subject, on every pattern of the enumerated alphabets; malformed patterns give an error. " + BOUNDED,
